@@ -52,3 +52,42 @@ func VerifC01Key() {
 		nd.Assert(err != nil || v != nil, "ParseValue returns a value or an error")
 	}
 }
+
+// VerifC01Alphabet: strings longer than the all-bytes bound over a small
+// alphabet of the characters that drive the parser's special cases (glob
+// stars, substitutions, escapes, block strings, arrays, imports, edge groups),
+// through the file parser and the value entry point.
+func VerifC01Alphabet() {
+	n := nd.Choose("len", 0, nd.Param("NA", 5))
+	s := nd.From("s", n, "a*${}:\\|[]@.&()-> '\"\n;#")
+	if nd.Bool("value") {
+		v, err := ParseValue(s)
+		nd.Cover("value")
+		nd.Assert(err != nil || v != nil, "ParseValue returns a value or an error")
+		return
+	}
+	m, err := Parse("f.d2", strings.NewReader(s), nil)
+	c01CheckResult(m, err)
+}
+
+// VerifC01Subst: unquoted values with a substitution in the middle: text of
+// 0..K characters over a small alphabet before and after it (the parser
+// keeps glob-pattern offsets into a buffer that a substitution flushes).
+func VerifC01Subst() {
+	k := nd.Param("K", 3)
+	pre := nd.From("pre", nd.Choose("prelen", 0, k), "a*\\ .")
+	post := nd.From("post", nd.Choose("postlen", 0, k), "a*\\ $")
+	s := pre + "${" + []string{"", "x", "x.y"}[nd.Choose("var", 0, 2)] + "}" + post
+	switch nd.Choose("entry", 0, 2) {
+	case 0:
+		v, err := ParseValue(s)
+		nd.Cover("value")
+		nd.Assert(err != nil || v != nil, "ParseValue returns a value or an error")
+	case 1:
+		m, err := Parse("f.d2", strings.NewReader("k: "+s+"\n"), nil)
+		c01CheckResult(m, err)
+	case 2:
+		m, err := Parse("f.d2", strings.NewReader("k: ["+s+"; "+s+"]\n"), nil)
+		c01CheckResult(m, err)
+	}
+}
